@@ -36,14 +36,14 @@ def confirm(d, run_tests=True):
     try:
         env = dict(os.environ, PYTHONPATH=wt)
         demo = os.path.join(d, "demo.py")
-        r0 = sh(f"cd {wt} && {PYT} {demo}", env=env)
+        r0 = sh(f"cd {wt} && {PYT} {demo} {wt}", env=env)  # round-8 demos take the tree as argv[1]; older ones ignore it
         out["demo_without_patch"] = {"exit": r0.returncode, "tail": (r0.stdout + r0.stderr)[-400:]}
         ra = sh(f"git -C {wt} apply {os.path.join(d, 'patch.diff')}")
         if ra.returncode:
             out["apply_error"] = ra.stderr
             print(json.dumps(out, indent=1))
             return 2
-        r1 = sh(f"cd {wt} && {PYT} {demo}", env=env)
+        r1 = sh(f"cd {wt} && {PYT} {demo} {wt}", env=env)
         out["demo_with_patch"] = {"exit": r1.returncode, "tail": (r1.stdout + r1.stderr)[-600:]}
         if run_tests:
             t0 = time.time()
